@@ -28,7 +28,7 @@ CLAIMED["C20"] = (
     "from the reset to a return replaces/clears the environment or re-arms the flag, every NotifierImpl access is "
     "through its MutexGuard, both request entry points set the flag on all live paths.  These are the code-shape "
     "facts the no-lost-request interleaving argument rests on; schedules are not explored (that would be a "
-    "different technique), so the claim is the structural clause, for all paths.",
+    "different technique), so the claim is the structural clause, for all paths. The functions that reset the flag are found by their `should_reload = false` write, not by name.",
     "DESIGN.md §3 C20",
     "The interleaving argument over the checked facts is on paper; callbacks supplied by the host are assumed not to "
     "touch the flag.")
@@ -67,7 +67,7 @@ CLAIMED["C11"] = (
     "the whole-program call graph (CHA + closure + fn-pointer + generic/dyn callback resolution) the interpreter is "
     "acyclic once the charged edges are removed and cannot reach the uncharged top-level entry.  This decides, for "
     "all recursive program shapes, that recursion is counted against the limit; whether the native stack suffices "
-    "for the counted depth is a per-frame size question the quick tier does not decide.",
+    "for the counted depth is a per-frame size question the quick tier does not decide. Also: the inherited depth counter is written only as reset / +=delta / -=delta / absolute restore of a Context::depth() checkpoint taken before the charge, and decr_depth uses the constant of the dominating incr_depth; thorough tier: a lower bound of native stack use (frame sizes from -Zemit-stack-sizes x nesting admitted by the limit) stays below 2 MiB.",
     "DESIGN.md §3 C11",
     "No analysed configuration enables stacker.  The reviewed constants (4, 10, 500) encode the measured stack margin; "
     "lowering a cost or raising the cap is reported.")
@@ -98,7 +98,7 @@ CLAIMED["C14"] = (
     "into a Span comes from tokenizer position fields, byte offsets change only by a character's len_utf8 and only "
     "`advance` moves the tokenizer offset (by slicing the input); instructions are emitted without a line record "
     "only at reviewed sites.  Decides that locations are attached on all error paths and that reported ranges are "
-    "character-aligned by construction; that the line is the *correct* one (shift-by-N) is value-level and not decided.",
+    "character-aligned by construction; that the line is the *correct* one (shift-by-N) is value-level and not decided. Also: (F5) interprocedural FRESH/STALE analysis of the code generator: a fallible instruction is never emitted with the plain add() before the generator's line was set for the current statement; (F6) expand_span refuses to invert a span, or every path to it consumes a token; the function that moves the lexer offset also counts the newlines it skips (found by the write, not by name).",
     "DESIGN.md §3 C14",
     "std str slicing panics on non-boundaries (so a wrong byte count cannot produce a bad range silently).")
 
@@ -112,7 +112,7 @@ CLAIMED["C04"] = (
     "to run time); `not` and container literals use the same truthiness / constructors on both sides.  This "
     "decides literal/variable transparency at the level 'both evaluators run the same function on the same "
     "operands' for all operators and all operand values; it does not decide anything about the operator functions "
-    "themselves (that is C08).",
+    "themselves (that is C08). Also: unary minus is ops::neg alone in the folder, the literal fast path and the interpreter; the folded comparison chain compares neighbours and stops at the first false link; every keyword argument contributes (compiled or stored) on every path of the emitting loop; a closure that evaluates an operator at compile time is never consumed by an adaptor that swallows None.",
     "DESIGN.md §3 C04",
     "Keyword-argument constant handling in codegen (static kwargs) is not covered.")
 
@@ -125,7 +125,7 @@ CLAIMED["C08"] = (
     "arithmetic; integer literals convert through from_str_radix with the error reported; every value `neg` returns "
     "is the result of a negation.  This decides 'no wrap, no silent truncation, no dropped sign, one // and % "
     "convention' for all operand pairs and storage widths; numeric values themselves and exact int/float comparison "
-    "are not decided.",
+    "are not decided. Also: inside the operator functions no arithmetic helper of a type narrower than 128 bits decides the outcome (wrapping/saturating forms reported; the None of a narrow checked_* must fall through to the 128-bit computation).",
     "DESIGN.md §3 C08",
     "One known finding (neg of 2^127 keeps the sign positive) is pinned by an existing snapshot and therefore listed, not repaired.")
 
@@ -154,7 +154,7 @@ CLAIMED["C02"] = (
     "captures are marked safe only when auto-escape is on; the fast-path byte test covers every byte the escaper "
     "escapes, which covers < > & \" ', all within the range pre-check, and replacements are free of raw "
     "metacharacters.  This decides the escaping skeleton (no raw path to the sink, no unjustified safe-marking) for "
-    "all templates and contexts; the text transformation of each filter and custom formatters are not decided.",
+    "all templates and contexts; the text transformation of each filter and custom formatters are not decided. Also: wherever a filter escapes a parameter-derived value on one path, every other non-error path is under is_safe()/.safe or a kind test restricted to markup-free kinds (escape-or-justify); the byte classifier is read from the function and its closures and its range pre-check must contain every listed byte.",
     "DESIGN.md §3 C02",
     "The speedups (v_htmlescape) feature is outside the analysed configurations.  Restoration of the auto-escape mode after scoped constructs is C05.")
 
@@ -168,7 +168,7 @@ CLAIMED["C15"] = (
     "resetting guard; filters/tests/globals are mutated only through Arc::make_mut.  Thorough adds rustc-checked "
     "witnesses (Send+Sync, no mutation while a Template borrows the Environment, with compiling twins).  These are "
     "the shape conditions that rule out history leaking into later renders; equality of renders across histories "
-    "and thread interleavings are not executed.",
+    "and thread interleavings are not executed. Also: explicit additions use an overwriting map API and the lazy loader fill a keep-first API (reviewed API table); no field reachable from Environment puts an interior-mutable container behind an Arc (clones share only immutable state).",
     "DESIGN.md §3 C15",
     "Per-render state lives in State and the borrow checker forbids mutation during renders (witnessed).")
 
@@ -182,7 +182,7 @@ CLAIMED["C12"] = (
     "Result of each of the ~60 helper call sites is returned/propagated; a value of type UndefinedBehavior is only "
     "passed to the reviewed functions (never into data); is defined / is undefined / default never assert their "
     "operand.  Together a non-interference argument for 'stricter modes only add errors' over all programs and "
-    "contexts; per-site behaviour of third-party callbacks is assumed mode-independent.",
+    "contexts; per-site behaviour of third-party callbacks is assumed mode-independent. Also: inside the interpreter a stack value is iterated only through UndefinedBehavior::try_iter (two reviewed exceptions); every path through the Emit handler passes the {Strict, SemiStrict} test or Environment::format.",
     "DESIGN.md §3 C12",
     "Host-registered filters/functions/objects are assumed not to consult the undefined behavior.")
 
@@ -196,7 +196,7 @@ CLAIMED["C05"] = (
     "and the for-else body are parsed with in_loop reset; in the VM every nested-evaluation helper closes what it "
     "opens on every path (reviewed error-path exception), with_execution_state writes back what it replaced, and the "
     "handlers of the scope instructions perform exactly their operation.  This decides the property's structural "
-    "content for all templates the compiler accepts and all control-flow paths of the emitted code.",
+    "content for all templates the compiler accepts and all control-flow paths of the emitted code. Also: the scope walk of break/continue and their jump-target searches scan the pending blocks in the same direction; every instruction emitted at the loop end ahead of PopLoopFrame pushes nothing on the interpreter paths of a recursive loop invocation.",
     "DESIGN.md §3 C05",
     "Patched jump targets are tied to the pending-block nesting the check verifies; the run-time meaning of frames/captures themselves is trusted.")
 
@@ -209,7 +209,7 @@ CLAIMED["C18"] = (
     "evaluates a field before assigning another the tracker must not assign first, and a variable is reported "
     "exactly when it is not assigned.  This decides soundness of the tracker's traversal against the engine's own "
     "evaluation order for all templates; the implicit names (loop/self/super/caller) and lookups performed by host "
-    "objects are not decided.",
+    "objects are not decided. Also: every public entry point returns, unfiltered, what find_undeclared computed on every path except the parse-error exit.",
     "DESIGN.md §3 C18",
     "One known finding (macro argument defaults) is listed; its repair would change macro closure capture.")
 
